@@ -9,6 +9,19 @@ TB = ('trusted: clang 14 parser/constant evaluator/CFG builder as driven by tool
       'flags -std=gnu++20 -DNDEBUG -DLOG_LEVEL=0 stand for the release build; ')
 
 CHECKS = {
+    'C18': dict(
+        category='other',
+        text='Partial. (R1) the 781 clang-evaluated constants, put into the specification order through the engine\'s Piece numbering '
+             '(black pawn, white pawn, ..., white king; a1..h8; castling KQkq; e.p. files; turn), are pairwise distinct, carry the 22 widely '
+             'quoted published entries at their published indices, and hash to a reference digest frozen on the tree that passes the nine '
+             'published test vectors; squares are numbered 8*row+file. (R2) hash() starts at 0 and only XORs; every entry of every piece '
+             'list of all twelve pieces contributes TABLE[piece][its square] unconditionally; exactly six special terms: each castling right '
+             'governs its own constant once, the e.p. constant of file(ep) is governed by ep != NO_SQUARE and '
+             'pawn_attacks(ep, !stm) & pieces(stm, PAWN) != 0, the turn constant by stm == WHITE (conditions compared as normalised atoms). '
+             'The values themselves cannot be compared with the publication offline.',
+        design_ref='DESIGN.md §3 C18',
+        note=TB + 'reference digest in checks/props/C18.py; pawn_attacks/pieces/piece lists as established by C11/C02.',
+        technique='static: TABLE relation on evaluated constants (digest + anchors), guard-atom and loop-shape rules over the AST/CFG'),
     'C14': dict(
         category='other',
         text='Partial. Cache transparency, structurally: everything reachable from the cached pawn term reads the position through '
